@@ -326,8 +326,10 @@ static int sweep_c11(int argc, char **argv) {
     static const char *vname[] = {"empty", "same-seq", "different-seq", "other-generation", "other-mapper",
                                   "hole-then-same-seq", "hole-then-different-seq", "full-table-mapper-last-different-seq",
                                   "full-table-without-mapper", "same-seq-session-complete", "different-seq-session-complete",
-                                  "same-seq-every-flag-set"};
-    for (int variant = 0; variant < 12; variant++) {
+                                  "same-seq-every-flag-set", "different-seq-0x8000-apart", "different-seq-0x7fff-apart",
+                                  "different-seq-0x8001-apart", "different-seq-all-bits-flipped", "different-seq-0xffff-apart-complete"};
+    static const uint16_t far_delta[] = {0x8000, 0x7fff, 0x8001, 0, 0xffff};
+    for (int variant = 0; variant < 17; variant++) {
         session_table *tab = session_table_create();
         if (!tab) { viol("C11:setup", "session_table_create failed"); return 0; }
         switch (variant) {
@@ -345,6 +347,13 @@ static int sweep_c11(int argc, char **argv) {
                 if (variant == 7) session_table_add(tab, MX, GEN, (uint16_t)(XID + 1));
                 else { uint8_t o[6] = {2, 0x77, 0, 0, 1, 0}; session_table_add(tab, o, GEN, 9); }
                 break;
+            case 12: case 13: case 14: case 15: case 16: {   /* the known sequence number is far from the Discover's, not next to it */
+                uint16_t other = variant == 15 ? (uint16_t)~XID : (uint16_t)(XID + far_delta[variant - 12]);
+                session_entry *e = session_table_add(tab, MX, GEN, other);
+                if (e && variant == 16) e->complete = true;
+                session_table_update_complete_status(tab);
+                break;
+            }
             case 9: case 10: case 11: {    /* the session is already complete (the daemon marks it after an acknowledging Discover) */
                 session_entry *e = session_table_add(tab, MX, GEN, (uint16_t)(variant == 10 ? XID + 1 : XID));
                 if (e) { e->complete = true; if (variant == 11) { e->state = 0xFF; } }
@@ -352,7 +361,7 @@ static int sweep_c11(int argc, char **argv) {
                 break;
             }
         }
-        int changed = (variant == 2 || variant == 6 || variant == 7 || variant == 10);
+        int changed = (variant == 2 || variant == 6 || variant == 7 || variant == 10 || variant >= 12);
         /* the classification is a function of (frame, table, own address): the clock moves on between the moment the
          * sessions were recorded and the Discover being classified, no expiry tick in between */
         static const uint64_t clk_adv[] = {0, 59000, 1000, 1000, 1000, 3539000ull, 1ull << 33};
@@ -360,7 +369,7 @@ static int sweep_c11(int argc, char **argv) {
         for (int ci = 0; ci < 7; ci++) {
         vp_now_ms += clk_adv[ci]; clk_total += clk_adv[ci];
         for (int n = 1; n <= nmax; n++) {
-            if (((variant >= 5 && variant < 9) || ci > 0) && !(n <= 3 || n == 7 || n == 100 || n == nmax)) continue;
+            if (((variant >= 5 && variant < 9) || variant >= 12 || ci > 0) && !(n <= 3 || n == 7 || n == 100 || n == nmax)) continue;
             for (int p = -1; p < n; p++) {
                 vp_fill_stream(buf, mtu, fseed + 13);
                 size_t o = mk_base(buf, BCAST, MX, 0, 0, BCAST, MX, XID);
